@@ -439,7 +439,13 @@ class Resource(object):
 
     @staticmethod
     def normalize(fragment):
-        return fragment.split()[-1:][0] if ' ' in fragment else fragment
+        # 'prefix:Type uri#fragment' -> 'uri#fragment'.  Only a leading type
+        # qualifier is dropped: a path may contain spaces ('my dir/b.xmi#//')
+        if ' ' in fragment:
+            head, tail = fragment.split(' ', 1)
+            if ':' in head and '/' not in head and '#' not in head:
+                return tail.lstrip()
+        return fragment
 
     def _is_external(self, path):
         path = self.normalize(path)
